@@ -176,8 +176,9 @@ impl TapeRng {
             }
             off += d.bytes.len();
         }
-        // every other offset, nearest to a draw start first, capped: this is a courtesy to
-        // unusual implementations, not an exhaustive search
+        // every other offset, nearest to a draw start first (an implementation that fetches
+        // several values with one larger request is still recognised); the cap only guards
+        // against pathological tapes
         if all.len() >= len {
             let starts: Vec<usize> = {
                 let mut o = 0;
@@ -191,7 +192,7 @@ impl TapeRng {
                     .collect()
             };
             let dist = |o: &usize| starts.iter().filter(|s| **s <= *o).map(|s| o - s).min().unwrap_or(*o);
-            let mut extra: Vec<usize> = (0..=all.len() - len).filter(|o| !seen.contains(o) && dist(o) <= 32).collect();
+            let mut extra: Vec<usize> = (0..=all.len() - len).filter(|o| !seen.contains(o)).collect();
             extra.sort_by_key(dist);
             for off in extra.into_iter().take(65536) {
                 v.push((off, all[off..off + len].to_vec()));
